@@ -8,6 +8,7 @@ package ledger
 import (
 	"fmt"
 	"math/big"
+	"sort"
 	"sync"
 	"sync/atomic"
 	"testing"
@@ -94,6 +95,9 @@ func cconcRun(t *testing.T, prop, part, profile, rule string, stream uint64, rea
 		wg.Wait()
 		for k, v := range verifhook.Counts() {
 			c.Count("hook."+k, int(v))
+		}
+		for k, v := range s.stats {
+			c.Count("gen."+k, v)
 		}
 		if h < 2 {
 			c.Sample(map[string]any{"history": h, "config": cfg.String(), "blocks": blocks, "readers": nReaders, "trace_tail": s.traceTail(6)})
@@ -305,11 +309,25 @@ func TestVerifC10Concurrent(t *testing.T) {
 						appIdx = idx
 					}
 				}
+				// apps that own (or owned) boxes in the model: most listings are asked about those
+				var boxed []basics.CreatableIndex
+				seenApp := map[uint64]bool{}
+				for k := range s.m.kv {
+					if a, _, err := apps.SplitBoxKey(k); err == nil && !seenApp[a] {
+						seenApp[a] = true
+						boxed = append(boxed, basics.CreatableIndex(a))
+					}
+				}
 				sh.modelMu.RUnlock()
 				if appIdx == 0 {
 					return
 				}
-				appIdx += basics.CreatableIndex(r.Intn(3)) // a few neighbouring ids, some of them apps
+				if len(boxed) > 0 && !r.Chance(1, 4) {
+					sort.Slice(boxed, func(i, j int) bool { return boxed[i] < boxed[j] })
+					appIdx = boxed[r.Intn(len(boxed))]
+				} else {
+					appIdx += basics.CreatableIndex(r.Intn(3)) // a few neighbouring ids, some of them apps
+				}
 				prefix := apps.MakeBoxKey(uint64(appIdx), []string{"", "a", "b", "box"}[r.Intn(4)])
 				cursor := ""
 				if r.Bool() {
